@@ -129,7 +129,7 @@ __CPROVER_ensures(s->g_writes == OLD(s->g_writes) + 1 && s->g_written_text == te
 """
 WS_ASSIGNS = 'g_exc, g_new_formatters, T_(transit_event_p)->g_writes, T_(transit_event_p)->g_written_text, T_(transit_event_p)->g_level_written, T_(transit_event_p)->g_filter_calls, T_(transit_event_p)->_override_pattern_formatter, O_(transit_event_p)->g_writes, O_(transit_event_p)->g_written_text, O_(transit_event_p)->g_level_written, O_(transit_event_p)->g_filter_calls, O_(transit_event_p)->_override_pattern_formatter'
 write_stmt = dict(
-    name='BW.write_stmt', primary='C16', props={'C16', 'C03'}, kind='S',
+    name='BW.write_stmt', primary='C16', props={'C16', 'C03', 'C12'}, kind='S',
     desc='BackendWorker::_write_log_statement: each sink of the logger, independently, gets exactly one write iff its own filters accept; text from the sink\'s override formatter if it has one, else the logger\'s',
     structs=[], prelude=WS_PRELUDE, enforce='BW__write_log_statement', replace=['SINK_apply_all_filters', 'PF_make', 'SINK_write_log'], loopcontracts=True,
     funcs=[dict(src=dict(header=H, cls='BackendWorker', name='_write_log_statement'),
@@ -159,8 +159,8 @@ __CPROVER_requires(g_exc == 0 && T_(transit_event_p)->g_writes == 0 && T_(transi
 __CPROVER_assigns(""" + WS_ASSIGNS + r""")
 __CPROVER_ensures(g_exc == 0 ==> T_(transit_event_p)->g_writes == (T_(transit_event_p)->g_filter_answer ? 1 : 0)) /*@ C16 "every sink of the logger is written exactly once iff its own level filter and filters accept the statement, independently of the other sinks" */
 __CPROVER_ensures((g_exc == 0 && T_(transit_event_p)->g_writes == 1) ==> T_(transit_event_p)->g_level_written == transit_event_p->g_level) /*@ C16 "the sink is told the statement's effective level (dynamic level included)" */
-__CPROVER_ensures((g_exc == 0 && T_(transit_event_p)->g_writes == 1 && !T_(transit_event_p)->has_override_options) ==> T_(transit_event_p)->g_written_text == transit_event_p->logger_base->pattern_formatter) /*@ C16 "a sink without an override pattern receives the line formatted with the logger's pattern" */
-__CPROVER_ensures((g_exc == 0 && T_(transit_event_p)->g_writes == 1 && T_(transit_event_p)->has_override_options) ==> (OVR_TEXT(T_(transit_event_p)) != 0 && T_(transit_event_p)->g_written_text == OVR_TEXT(T_(transit_event_p)))) /*@ C16 "a sink with an override pattern receives the line formatted with its own pattern" */
+__CPROVER_ensures((g_exc == 0 && T_(transit_event_p)->g_writes == 1 && !T_(transit_event_p)->has_override_options) ==> T_(transit_event_p)->g_written_text == transit_event_p->logger_base->pattern_formatter) /*@ C16,C12 "a sink without an override pattern receives the line formatted with the logger's pattern" */
+__CPROVER_ensures((g_exc == 0 && T_(transit_event_p)->g_writes == 1 && T_(transit_event_p)->has_override_options) ==> (OVR_TEXT(T_(transit_event_p)) != 0 && T_(transit_event_p)->g_written_text == OVR_TEXT(T_(transit_event_p)))) /*@ C16,C12 "a sink with an override pattern receives the line formatted with its own pattern" */
 __CPROVER_ensures(T_(transit_event_p)->g_writes <= 1) /*@ C03 "no sink is written twice for one statement, even when another sink throws" */
 """)],
     harness='  BW* s; TE* te; BW__write_log_statement(s, te);',
